@@ -159,9 +159,19 @@ struct Pt {
 fn gen_point(src: &mut Src) -> Pt {
     let r = 10f64.powf(src.f64_in(-3.0, 1.0));
     match src.below(8) {
-        0 | 1 | 2 => {
+        0 | 1 => {
             let th = src.f64_in(-PI, PI);
             Pt { z: (r * th.cos(), r * th.sin()), region: "generic", on_axis: false }
+        }
+        2 => {
+            if src.below(4) == 0 {
+                // exact special points (functions singular there are skipped by the singularity rule)
+                let z = [(1.0, 0.0), (-1.0, 0.0), (0.0, 1.0), (0.0, -1.0), (0.5, 0.0), (-0.5, 0.0), (2.0, 0.0), (-2.0, 0.0), (0.0, 2.0), (0.0, -0.5), (1.0, 1.0), (-1.0, 1.0), (1.0, -1.0), (-1.0, -1.0), (std::f64::consts::E, 0.0), (10.0, 0.0)][src.usize_below(16)];
+                Pt { z, region: "special-point", on_axis: z.0 == 0.0 || z.1 == 0.0 }
+            } else {
+                let th = src.f64_in(-PI, PI);
+                Pt { z: (r * th.cos(), r * th.sin()), region: "generic", on_axis: false }
+            }
         }
         3 => {
             // exactly on one of the four half-axes, the other component +0.0
@@ -239,7 +249,10 @@ fn run(case: &mut Case) -> Result<Outcome, String> {
     let z = p.z;
     let az = cabs(z);
     let zc = c(z);
-    let w: C = if case.src.coin() { (case.src.f64_in(-3.0, 3.0), 0.0) } else { let r = case.src.f64_in(0.0, 3.0); let th = case.src.f64_in(-PI, PI); (r * th.cos(), r * th.sin()) };
+    let w: C = if case.src.below(4) == 0 {
+        // exact special exponents (an implementation may special-case them)
+        [(0.0, 0.0), (1.0, 0.0), (2.0, 0.0), (-1.0, 0.0), (0.5, 0.0), (3.0, 0.0), (-2.0, 0.0), (0.0, 1.0), (1.0, 1.0), (-0.5, 0.0), (1.0 / 3.0, 0.0), (2.0, 1e-9)][case.src.usize_below(12)]
+    } else if case.src.coin() { (case.src.f64_in(-3.0, 3.0), 0.0) } else { let r = case.src.f64_in(0.0, 3.0); let th = case.src.f64_in(-PI, PI); (r * th.cos(), r * th.sin()) };
     let base: C = { let r = 10f64.powf(case.src.f64_in(-2.0, 1.0)); let th = case.src.f64_in(-3.0, 3.0); (r * th.cos() + 0.0, r * th.sin()) };
     let quad = if z.0 > 0.0 && z.1 > 0.0 { "Q1" } else { "other-quadrant-or-axis" };
     case.class(format!("{} {}", p.region, quad));
@@ -472,7 +485,7 @@ impl Prop for C14 {
     }
     fn rule(&self) -> String {
         "points z with |z| log-uniform in [1e-3, 10]: 3/8 uniform angle, 1/8 exactly on one of the four half-axes (other component +0.0), 2/8 within 1e-12..1e-6 of an axis on either side (both sides of every branch cut), \
-         2/8 within 1e-9..1e-1 of a branch point +-1, +-i; exponents w real or complex with |w| <= 3; bases for log. All public functions are evaluated at every point: exp, ln, sqrt, pow, powf, log, polar; sin, cos, tan, sec, csc, cot and their \
+         2/8 within 1e-9..1e-1 of a branch point +-1, +-i; exponents w real or complex with |w| <= 3, one quarter of them exact special values (0, 1, 2, -1, 1/2, 3, i, ...); bases for log; 1/32 of the points are exact special points (+-1, +-i, +-1/2, +-2, 1+-i, e, 10). All public functions are evaluated at every point: exp, ln, sqrt, pow, powf, log, polar; sin, cos, tan, sec, csc, cot and their \
          inverses; sinh, cosh, tanh, sech, csch, coth and their inverses. Oracles: reference formulas coded differently (Smith division, hypot, Kahan square root, ln via ln(hypot)/atan2, closed forms, exponential definitions), \
          Pythagorean identities, reciprocals, z^w = exp(w ln z), polar round trip, each inverse g of f: f_ref(g(z)) = z and agreement with the Kahan-style principal value (not compared exactly on a cut), principal ranges of sqrt/ln/asin/acos, asin+acos = pi/2, \
          reduction to the real std functions on the real axis. Tolerance K*eps*amplification, K = 400 forward; K = 100 for the inverse functions, whose amplification is computed at the actual argument from the defining logarithmic formula (cancellation inside the logarithm, conditioning of the square root next to its branch point, conditioning of 1/z for the reciprocal-argument functions) - worst observed ratio on the pinned tree < 1.0 for all 24 inverse checks; points within 1e-6 of a pole or logarithmic singularity are skipped and counted. \
